@@ -189,7 +189,13 @@ func isTimeout(err error) bool {
 	return ok && ne.Timeout()
 }
 
-const sentinelCSeq = "sentinel-7f3a"
+const sentinelCSeq = "99999"
+
+// circuit breakers: a broken implementation must not turn every remaining case into a long wait
+var (
+	timeouts    int // reads that hit their deadline so far (whole run)
+	slowSettles int // registry polls that ran into their deadline so far
+)
 
 var methodNames = map[int64]string{0: "OPTIONS", 1: "DESCRIBE", 2: "ANNOUNCE", 3: "SETUP", 4: "PLAY", 5: "RECORD",
 	6: "TEARDOWN", 7: "PAUSE", 8: "GET_PARAMETER", 9: "SET_PARAMETER", 10: "REDIRECT", 11: "FOOBAR"}
@@ -337,10 +343,18 @@ func (w *world) registry(watch []Val) (Val, bool) {
 // after the connection is gone the session's cleanup runs in its own goroutine:
 // wait (bounded) for the state the property demands, then report what is there
 func (w *world) settledRegistry(watch []Val) Val {
-	deadline := time.Now().Add(2 * time.Second)
+	d := 2 * time.Second
+	if slowSettles > 8 {
+		d = 20 * time.Millisecond
+	}
+	deadline := time.Now().Add(d)
 	for {
 		r, self := w.registry(watch)
-		if !self || time.Now().After(deadline) {
+		if !self {
+			return r
+		}
+		if time.Now().After(deadline) {
+			slowSettles++
 			return r
 		}
 		time.Sleep(200 * time.Microsecond)
@@ -414,11 +428,12 @@ func runCase(c Val) Val {
 	steps := make([]Val, 0, len(reqs))
 	medias := make([]Val, 0, len(reqs))
 	waited := false
+	wedged := false
 	mediaSeen := func() bool { return cl.frames > 0 || atomic.LoadInt32(&udpSeen) != 0 }
 
 	for _, q := range reqs {
 		resps := []Val{}
-		if !cl.dead {
+		if !cl.dead && !wedged {
 			text, ok := requestText(q, udpPort)
 			if !ok {
 				return L(S("!badcase"))
@@ -430,16 +445,24 @@ func runCase(c Val) Val {
 			cl.conn.Write([]byte(text))
 			for {
 				// after TEARDOWN the end of the exchange is the server closing the connection
-				d := 5 * time.Second
+				d := 3 * time.Second
 				if teardown {
 					d = 2 * time.Second
+				}
+				if timeouts > 4 {
+					d = 30 * time.Millisecond
 				}
 				r, err := cl.next(d)
 				if err != nil {
 					if !isTimeout(err) {
 						cl.dead = true
-					} else if !teardown {
-						resps = append(resps, L(I(-1), S("!timeout"), I(0)))
+					} else {
+						timeouts++
+						if !teardown {
+							// no answer to the sentinel: the connection is wedged; report and stop using it
+							resps = append(resps, L(I(-1), S("!timeout"), I(0)))
+							wedged = true
+						}
 					}
 					break
 				}
